@@ -452,4 +452,125 @@ CATALOGUE = [
          new="    if isinstance(value, int):\n        return ClaferAttributeType.INT.value\n    if isinstance(value, bool):\n        return ClaferAttributeType.BOOL.value"),
     dict(id="c11-instance-wrong-root", props=["C11"], file=TR + "clafer_writer.py", rule="C11-",
          old="    result += f'\\n\\n{INSTANCE} : {safename(feature_model.root.name)}\\n'", new="    result += f'\\n\\n{INSTANCE} : {feature_model.root.name.lower()}\\n'"),
+    # ---- behaviour-preserving refactors (must stay silent) ------------------------------------------------
+    dict(id="silent-get-relations-iterative", props=["C03", "C16", "C17", "C02"], file=FM, expect="silent",
+         old="""        relations = []
+        for relation in feature.relations:
+            relations.append(relation)
+            for _feature in relation.children:
+                relations.extend(self.get_relations(_feature))
+        return relations""",
+         new="""        relations = []
+        pending = [feature]
+        while pending:
+            current = pending.pop(0)
+            for relation in current.relations:
+                relations.append(relation)
+                pending.extend(relation.children)
+        return relations"""),
+    dict(id="silent-core-features-recursive", props=["C14", "C19"], file=OPS + "fm_core_features.py", expect="silent",
+         old="""    core_features = [feature_model.root]
+    features = [feature_model.root]
+    while features:
+        feature = features.pop()
+        for relation in feature.get_relations():
+            # All children are forced: mandatory ([1..1] on one child) or a group [n..n] of n
+            if relation.card_min >= len(relation.children):
+                core_features.extend(relation.children)
+                features.extend(relation.children)
+
+    return core_features
+""",
+         new="""    def collect(feature: Feature, acc: list[Feature]) -> list[Feature]:
+        acc.append(feature)
+        for relation in feature.get_relations():
+            if relation.card_min >= len(relation.children):
+                for child in relation.children:
+                    collect(child, acc)
+        return acc
+
+    return collect(feature_model.root, [])
+"""),
+    dict(id="silent-atomic-sets-iterative", props=["C15", "C19"], file=OPS + "fm_atomic_sets.py", expect="silent",
+         old="""    compute_atomic_sets(atomic_sets, root, atomic_set)
+    return atomic_sets
+
+
+def compute_atomic_sets(atomic_sets: list[set[Feature]],
+                        feature: Feature,
+                        current_set: set[Feature]) -> None:
+    for child in feature.get_children():
+        if child.is_mandatory():
+            current_set.add(child)
+            compute_atomic_sets(atomic_sets, child, current_set)
+        else:
+            new_as = {child}
+            atomic_sets.append(new_as)
+            compute_atomic_sets(atomic_sets, child, new_as)
+""",
+         new="""    pending = [(root, atomic_set)]
+    while pending:
+        feature, current_set = pending.pop()
+        for child in feature.get_children():
+            if child.is_mandatory():
+                current_set.add(child)
+                pending.append((child, current_set))
+            else:
+                new_as = {child}
+                atomic_sets.append(new_as)
+                pending.append((child, new_as))
+    return atomic_sets
+"""),
+    dict(id="silent-is-cardinal-arithmetic", props=["C03", "C05", "C10"], file=FM, expect="silent",
+         old="""        return (
+            self.is_group()
+            and not self.is_alternative()
+            and not self.is_or()
+            and not self.is_mutex()
+        )""",
+         new="""        n = len(self.children)
+        if n < 2:
+            return False
+        simple = (self.card_min, self.card_max) in [(1, 1), (0, 1), (1, n)]
+        return not simple"""),
+    dict(id="silent-vp-recursive", props=["C16"], file=OPS + "fm_variation_points.py", expect="silent",
+         old="""    vps: dict[Feature, list[Feature]] = {}
+    features = [feature_model.root]
+    while features:
+        feature = features.pop()
+        variants = []
+        for relation in feature.get_relations():
+            if not relation.is_mandatory():
+                variants.extend(relation.children)
+        if variants:
+            vps[feature] = variants
+        features.extend(feature.get_children())
+    return vps""",
+         new="""    vps: dict[Feature, list[Feature]] = {}
+
+    def visit(feature: Feature) -> None:
+        variants = [c for r in feature.get_relations() if not r.is_mandatory() for c in r.children]
+        if variants:
+            vps[feature] = variants
+        for child in feature.get_children():
+            visit(child)
+    visit(feature_model.root)
+    return vps"""),
+    dict(id="silent-uvl-writer-join", props=["C01", "C12"], file=TR + "uvl_writer.py", expect="silent",
+         old="""        result = ""
+        constraints = self.model.ctcs
+        if constraints:
+            result = "constraints"
+            for constraint in constraints:
+                constraint_text = self.serialize_constraint(constraint)
+                result = result + "\\n\\t" + constraint_text
+        return result""",
+         new="""        constraints = self.model.ctcs
+        if not constraints:
+            return ""
+        return "\\n\\t".join(["constraints"] + [self.serialize_constraint(c) for c in constraints])"""),
+    dict(id="silent-json-writer-deepcopy", props=["C05", "C12"], file=TR + "json_writer.py", expect="silent",
+         old="        json_object = to_json(self.source_model)", new="        import copy\n        json_object = copy.deepcopy(to_json(self.source_model))"),
+    dict(id="silent-metrics-logger", props=["C17", "C19"], file=OPS + "fm_metrics.py", expect="silent",
+         old="        self.model = cast(FeatureModel, model)\n", new="        import logging\n        logging.getLogger(__name__).debug('metrics for %s', model)\n        self.model = cast(FeatureModel, model)\n"),
 ]
